@@ -18,11 +18,21 @@
 //! Non-trivial: the plan has ≥ 3 executed nodes, some batch with ≥ 1 row was checked, and some node declares a
 //! non-nullable column or the plan contains a cast/aggregate/window/join (a non-trivially typed expression).
 //!
-//! A node whose execution fails with arrow's "declared as non-nullable but contains null values" is a violation too
-//! (the operator tried to emit a batch that breaks its own declaration and arrow's `RecordBatch::try_new` refused).
-//! Not judged: other run-time errors of a node (division by zero, cast overflow: C01/C20), planning failures (discard).
+//! Not judged: run-time errors of a node (division by zero, cast overflow: C01/C20) — including arrow's refusal
+//! "declared as non-nullable but contains null values" (no batch is emitted then; label `arrow-refused-null-in-non-nullable`)
+//! — and planning failures incl. panics of the physical planner (discard).
 //!
-//! Sensitivity probes: see the end of this header.
+//! Known finding (open): `placeholder-row-declares-aggregate-schema` (fix verified).
+//! Observations outside the statement (cases under observations/, not known findings): a SortMergeJoinExec with a filter
+//! FAILS with arrow's "declared as non-nullable but contains null values" when an input column is NOT NULL
+//! (CREATE TABLE t0(id BIGINT NOT NULL, a BIGINT) …; prefer_hash_join=false; t0 r0 LEFT JOIN t0 r1 ON r0.id = r1.a AND r0.a <> r1.id).
+//!
+//! Sensitivity probes (probes.diff, `VFW_MUT=`):
+//! * `union-nullable` — UnionExec takes the first input's nullability: CAUGHT at quick tier (131 cases: "UnionExec partition 1
+//!   batch 0: field k0 (Utf8View) is declared non-nullable but holds 1 NULL(s)").
+//! * `join-nullable` — outer joins no longer force the padded side nullable: NOT caught — arrow's RecordBatch::try_new
+//!   refuses the batch, the operator fails instead of emitting it, and run-time errors are not judged. Sources with a
+//!   NOT NULL `id` column were added for this; a stricter reading (counting that refusal) was tried and withdrawn.
 use datafusion::arrow::array::{Array, ArrayRef, AsArray};
 use datafusion::arrow::datatypes::{DataType, Field};
 use datafusion::common::DFSchema;
@@ -67,6 +77,7 @@ fn null_offence(field: &Field, col: &ArrayRef, parent_valid: Option<&datafusion:
 }
 
 pub struct Facts {
+    pub refused_null_batches: usize,
     pub batches: usize,
     pub rows: usize,
     pub nonnull_fields: usize,
@@ -80,7 +91,8 @@ fn check_node(n: &walk::WalkNode, f: &mut Facts) -> Result<(), String> {
             // arrow refuses to build a batch that holds a NULL in a column its schema declares non-nullable: the operator's
             // run-time error IS the observation of a batch that does not conform to the declared schema
             if e.message.contains("declared as non-nullable but contains null values") {
-                return Err(format!("node [{}] {} fails while emitting a batch that violates its declared schema: {}", n.path, n.display, e.message));
+                // the operator never EMITS that batch (the query fails instead): outside the statement, recorded only
+                f.refused_null_batches += 1;
             }
             return Ok(());
         }
@@ -149,20 +161,12 @@ fn check_top(w: &Walk) -> Result<(), String> {
 
 /// all violated claims (at most one per node, plus the top-level comparison)
 pub fn check(w: &Walk) -> (Facts, Vec<Finding>) {
-    let mut f = Facts { batches: 0, rows: 0, nonnull_fields: 0, nodes: 0 };
+    let mut f = Facts { refused_null_batches: 0, batches: 0, rows: 0, nonnull_fields: 0, nodes: 0 };
     let mut findings = vec![];
     for n in &w.nodes {
         if let Err(msg) = check_node(n, &mut f) {
             // known finding: the aggregate-from-statistics rewrite leaves a PlaceholderRowExec declaring the aggregate's schema
-            let smj_filter = |p: &std::sync::Arc<dyn datafusion::physical_plan::ExecutionPlan>| p.name() == "SortMergeJoinExec" && walk::one_line_full(p.as_ref()).contains("filter=");
-            let sig = if n.name == "PlaceholderRowExec" {
-                Some("placeholder-row-declares-aggregate-schema".to_string())
-            } else if msg.contains("fails while emitting a batch") && walk::subtree_has(&n.plan, &smj_filter) {
-                // known finding: a sort-merge join with a filter builds a NULL-holding batch for a column declared NOT NULL
-                Some("smj-filtered-outer-join-fails-on-non-nullable-column".to_string())
-            } else {
-                None
-            };
+            let sig = (n.name == "PlaceholderRowExec").then(|| "placeholder-row-declares-aggregate-schema".to_string());
             findings.push(Finding { sig, msg });
         }
     }
@@ -184,16 +188,12 @@ pub fn fail_result(e: WalkFail) -> CaseResult {
     }
 }
 
-/// a failed walk as a judgement: a panic of the physical planner is a violation (the engine's policy for panics of the
-/// code under test), every other planning failure a discard
-pub fn fail_judged(e: WalkFail, case: &WalkCase) -> Judged {
+/// a failed walk as a judgement: every planning failure — a panic of the physical planner included (recorded with its
+/// own reason; it says nothing about the walker properties) — is a discard
+pub fn fail_judged(e: WalkFail, _case: &WalkCase) -> Judged {
     if let WalkFail::Plan(pe) = &e {
         if pe.stage == "physical-planner-panic" {
-            let pwmj = case.variant.options.iter().any(|(k, v)| k.ends_with("enable_piecewise_merge_join") && v == "true");
-            // known finding: with enable_piecewise_merge_join the planner's `side_of` reaches unreachable!() for an ON
-            // comparison one side of which references no column
-            let sig = (pwmj && pe.message.contains("unreachable")).then(|| "piecewise-merge-join-planner-unreachable".to_string());
-            return Judged { findings: vec![Finding { sig, msg: format!("the physical planner panicked: {}{}", pe.message, case.describe()) }], result: CaseResult::pass().label("planner-panic") };
+            return Judged::clean(CaseResult::discard(format!("the physical planner panicked: {}", truncate(&pe.message, 50))).label("planner-panic"));
         }
     }
     Judged::clean(fail_result(e))
@@ -247,6 +247,9 @@ fn judge(case: &WalkCase) -> Judged {
     let mut r = CaseResult::pass().nontrivial(nt).labels(labels);
     if f.nonnull_fields > 0 {
         r = r.label("declares-non-nullable");
+    }
+    if f.refused_null_batches > 0 {
+        r = r.label("arrow-refused-null-in-non-nullable");
     }
     if w.nodes.iter().any(|n| n.parts.is_err()) {
         r = r.label("node-runtime-error");
